@@ -3,7 +3,7 @@
     - [kmp_conserves_le2_upto_9]: every chain over 5 centres of length <= 9 without equal
       cyclic neighbours that visits no centre more than twice is reduced to a ring whose
       directed cyclic edge multiset is that of the chain minus cancelling pairs (e, reverse e).
-      (Exhaustive evaluation; the general statement [kmp_conserves_le2] is NOT proved.)
+      (Exhaustive evaluation; the general statement is [kmp_conserves_le2] in ProofsKmpLe2.)
     - [kmp_conserves_le3_upto_10]: the same up to three visits (4 centres, length <= 10), when
       zero-length edges (p, p) of the OUTPUT are ignored: with three visits the output may
       contain two equal neighbours ([kmp_output_adjacent_dup]).
@@ -99,20 +99,8 @@ Definition conserves_nd_b (v : nat) (w : list nat) : bool :=
     end
   else true.
 
-(** The general statement, NOT proved:
-
-      Theorem kmp_conserves_le2 : forall r r',
-        (forall p, count_occ pt_eq_dec r p <= 2) -> no equal cyclic neighbours in r ->
-        kmpDeduplicate r = Ok r' -> conserves (cedges r) (cedges r').
-
-    Proof idea (checked by the enumeration below, not formalised): with at most two visits the
-    segment S = ring[start..i) has pairwise distinct elements, so kmpTable is all zero and kmpSearch
-    is the naive exact search; all elements of S but the last have both their visits inside
-    S followed by its reflection, hence S occurs only at 0 (or also at 2 when L = 2 and the ring reads
-    a b a b) and its reverse only at L-1: (len matches, len reverseMatches) is (1,1) (nothing removed) or
-    (2,1) with L = 2 (the second "a b" removed: edges b->a and a->b cancel).  Missing: the naive-search
-    lemma, the occurrence-counting lemmas and the bookkeeping of the recorded ranges through
-    RemoveSequences. *)
+(** The general statement ([kmp_conserves_le2], for every ring with at most two visits per point) is
+    proved in ProofsKmpLe2; the bounded evaluation below is kept as an independent check of it. *)
 Lemma kmp_conserves_le2_eval : allw_ne_upto 5 9 (conserves_b 2) = true.
 Proof. vm_cast_no_check (eq_refl true). Qed.
 
